@@ -174,6 +174,13 @@ func (fst *FSTree) Query(q *query.Query, local, internal bool) (*iterator.Iterat
 		return nil, err
 	}
 	fileInfo, err := os.Stat(walkPrefix)
+	if walkPrefix == fst.basePath && (errors.Is(err, fs.ErrNotExist) || (err == nil && !fileInfo.IsDir())) {
+		// The database directory itself is missing (or is not a directory): nothing
+		// is stored. A walk must never start above the database directory.
+		queryIter := iterator.New()
+		queryIter.Finish(nil)
+		return queryIter, nil
+	}
 	var walkRoot string
 	switch {
 	case err == nil && fileInfo.IsDir() &&
